@@ -56,7 +56,9 @@ def _validate_child(part, ll, so, tier, seed, q):
     except NativeViolation as e: q.put(('native', e.key, e.note, e.cex))
     except Exception as e: q.put(('crash', 'validation crashed: %s\n%s' % (e, traceback.format_exc()[-1500:])))
 
-def _alarm(signum, frame): raise ObTimeout()
+def _alarm(signum, frame):
+    signal.alarm(3)          # re-arm: an exception raised while a __del__ (z3 reference counting) is running is swallowed by the interpreter
+    raise ObTimeout()
 
 def _wrun(ob):
     import irsym
@@ -68,6 +70,7 @@ def _wrun(ob):
     try:
         r = H.run(E, ob)
     except ObTimeout:
+        signal.alarm(0)
         r = mkres(ob['name'], 'inconclusive', note='obligation wall-clock limit %ds reached' % limit)
     except irsym.Unsupported as e:
         r = mkres(ob['name'], 'inconclusive', note='engine: %s' % e)
